@@ -160,6 +160,40 @@ def pingreq():
     return P("PINGREQ", cid="c1")
 
 
+def gen_C06(tier, rnd):
+    """Timed histories around a message ID that is used again while its first exchange is still in the store
+    (retry delay 10 ticks: a client-initiated exchange started at t is dropped at t + 10): the later exchange must get its
+    acknowledgement although the earlier one - superseded by it - reaches its deadline first."""
+    out = []
+    pub1 = lambda pl: P("PUBLISH", qos=1, tit=2, sname="ab", mid=1, data=pl)
+    starts = {
+        "sub": (sub(1, "t/a"), M("SUBACK", mid=1, codes=[1])),
+        "sub2": (sub(1, "t/b"), M("SUBACK", mid=1, codes=[1])),
+        "pub": (pub1("s:one"), M("PUBACK", mid=1)),
+        "pub2": (pub1("s:two"), M("PUBACK", mid=1)),
+    }
+    pairs = [("sub", "sub2"), ("sub", "pub"), ("pub", "sub"), ("pub", "pub2"), ("sub", "sub")]
+    D = 10      # the gateway keeps a client-initiated exchange for one retry delay
+    for a, b in pairs:
+        for d1 in ((3, 7) if tier == "quick" else range(1, D)):
+            # the second exchange starts d1 ticks after the first; its acknowledgement arrives after the first
+            # one's deadline (D) and before its own (d1 + D)
+            for d2 in sorted({D - d1 + 1, D - 1}):
+                if not (D < d1 + d2 < d1 + D):
+                    continue
+                ev = CONNECT + [starts[a][0], adv(d1), starts[b][0], adv(d2), starts[b][1], adv(3)]
+                out.append(sc("supersede-%s-%s-%d-%d" % (a, b, d1, d2), ev, tail=30))
+        # the broker answers the first exchange only after the second one has replaced it
+        ev = CONNECT + [starts[a][0], adv(2), starts[b][0], adv(1), starts[b][1], adv(25)]
+        out.append(sc("supersede-early-%s-%s" % (a, b), ev, tail=30))
+    # a broker-initiated exchange with the same message ID opens and closes in between
+    for a in ("sub", "pub"):
+        ev = CONNECT + [P("SUBSCRIBE", qos=1, tit=2, sname="ab", mid=9), M("SUBACK", mid=9, codes=[1]), starts[a][0], adv(4),
+                        bpub("ab", qos=1, mid=1, short=True), P("PUBACK", mid=1, tid=24930, rc=0), adv(4), starts[a][1], adv(3)]
+        out.append(sc("coincide-%s" % a, ev, tail=30))
+    return out
+
+
 def gen_C12(tier, rnd, brokermodel=False):
     """timed histories in which the client meets its obligations (KA = 2 s = 20 ticks)"""
     out = []
